@@ -63,6 +63,7 @@ package mocrelay
 
 //@ func NewServerEventMsg
 //@   serves C07 C16
+//@   opt nonblocking=true
 //@   writes nothing
 //@   ensures fresh(result) && result.SubscriptionID == subID && result.Event == event
 
@@ -841,6 +842,7 @@ package mocrelay
 //@ func trySendCtx
 //@   serves C07
 //@   opt inst.T=ServerMsg
+//@   opt nonblocking=true
 //@   writes contents(ch), ghost(dropped, ch)
 //@   ensures sent ==> appendedS(chanbuf(ch), old(chanbuf(ch)), v)
 //@   promises sent ==> g(dropped, ch) == old(g(dropped, ch))
@@ -1451,9 +1453,11 @@ package mocrelay
 //@   ensures held(m.mu) == 0 && result == m.m[k]
 
 //@ func safeMap.Loop
-//@   serves C15
+//@   serves C07 C15
 //@   opt inst.K=string
 //@   opt inst.V=*subscriber
+//@   opt foreach=m
+//@   opt foreachlock=mu
 //@   requires m != nil && held(m.mu) == 0
 //@   writes lock(m.mu)
 //@   ensures[C15] held(m.mu) == 0
@@ -1465,20 +1469,107 @@ package mocrelay
 //@   ensures held(subs.subs.mu) == 0 && !has(subs.subs.m, reqID)
 //@   ensures all(j, string, j != reqID ==> (has(subs.subs.m, j) == old(has(subs.subs.m, j)) && subs.subs.m[j] == old(subs.subs.m[j])))
 
+// ---------------------------------------------------------------------------------------------
+// C07: router registry and fan-out
+
+//@ func newSubscriber
+//@   serves C07
+//@   requires msg != nil && wfFilters(msg.ReqFilters) && msg.ReqFilters != nil
+//@   writes nothing
+//@   ensures[C07] fresh(result) && result.ReqID == reqID && result.SubscriptionID == msg.SubscriptionID && refof(result.Ch) == refof(ch) && !isnil(result.Matcher)
+
+//@ func subscriber.SendIfMatch
+//@   serves C07
+//@   opt nonblocking=true
+//@   requires subOK(sub)
+//@   writes contents(sub.Ch), ghost(dropped, sub.Ch)
+//@   ensures[C07] !matches(sub.Matcher, event) ==> (chanbuf(sub.Ch) == old(chanbuf(sub.Ch)) && g(dropped, sub.Ch) == old(g(dropped, sub.Ch)))
+//@   ensures[C07] matches(sub.Matcher, event) ==> ((oneDelivery(chanbuf(sub.Ch), old(chanbuf(sub.Ch)), sub.SubscriptionID, event) && g(dropped, sub.Ch) == old(g(dropped, sub.Ch))) || (chanbuf(sub.Ch) == old(chanbuf(sub.Ch)) && g(dropped, sub.Ch) == old(g(dropped, sub.Ch)) + 1))
+//@   ensures chanhead(sub.Ch) == old(chanhead(sub.Ch)) && chanclosed(sub.Ch) == old(chanclosed(sub.Ch))
+
+//@ func subscribers.Publish
+//@   serves C07
+//@   opt nonblocking=true
+//@   requires registryWF(subs)
+//@   writes anychan(ServerMsg), anylock(subs.subs.mu), anylock(subs.subs.m[""].mu)
+//@   ensures[C07] registryWF(subs)
+//@   ensures all(c, chan ServerMsg, !fresh(c) ==> (chanhead(c) == old(chanhead(c)) && chanclosed(c) == old(chanclosed(c))))
+//@   ensures[C07] all(c, chan ServerMsg, !fresh(c) ==> (len(chanbuf(c)) >= old(len(chanbuf(c))) && g(dropped, c) >= old(g(dropped, c)) && forall(i, 0, old(len(chanbuf(c))), chanbuf(c)[i] == old(chanbuf(c))[i])))
+//@   ensures[C07] all(c, chan ServerMsg, !fresh(c) ==> forall(i, old(len(chanbuf(c))), len(chanbuf(c)), isDeliveryTo(subs, chanbuf(c)[i], c, event)))
+//@   ensures[C07] all(r, string, all(sid, string, (registered(subs, r, sid) && matches(subAt(subs, r, sid).Matcher, event)) ==> len(chanbuf(subAt(subs, r, sid).Ch)) + g(dropped, subAt(subs, r, sid).Ch) > old(len(chanbuf(subAt(subs, r, sid).Ch)) + g(dropped, subAt(subs, r, sid).Ch))))
+//@   loop 1 visited vr
+//@     lwrites anychan(ServerMsg), anylock(subs.subs.m[""].mu)
+//@     invariant registryWF2(subs) && held(subs.subs.mu) == 1 && all(r, string, has(subs.subs.m, r) ==> held(subs.subs.m[r].mu) == 0)
+//@     invariant all(c, chan ServerMsg, !fresh(c) ==> (chanhead(c) == old(chanhead(c)) && chanclosed(c) == old(chanclosed(c))))
+//@     invariant[C07] all(c, chan ServerMsg, !fresh(c) ==> (len(chanbuf(c)) >= old(len(chanbuf(c))) && g(dropped, c) >= old(g(dropped, c)) && forall(i, 0, old(len(chanbuf(c))), chanbuf(c)[i] == old(chanbuf(c))[i])))
+//@     invariant[C07] all(c, chan ServerMsg, !fresh(c) ==> forall(i, old(len(chanbuf(c))), len(chanbuf(c)), isDeliveryTo(subs, chanbuf(c)[i], c, event)))
+//@     invariant[C07] all(r, string, all(sid, string, (vr[r] && registered(subs, r, sid) && matches(subAt(subs, r, sid).Matcher, event)) ==> len(chanbuf(subAt(subs, r, sid).Ch)) + g(dropped, subAt(subs, r, sid).Ch) > old(len(chanbuf(subAt(subs, r, sid).Ch)) + g(dropped, subAt(subs, r, sid).Ch))))
+//@   loop 2 visited vs
+//@     lwrites anychan(ServerMsg)
+//@     invariant registryWF2(subs) && held(subs.subs.mu) == 1 && m != nil && held(m.mu) == 1 && all(r, string, (has(subs.subs.m, r) && subs.subs.m[r] != m) ==> held(subs.subs.m[r].mu) == 0)
+//@     invariant all(c, chan ServerMsg, !fresh(c) ==> (chanhead(c) == old(chanhead(c)) && chanclosed(c) == old(chanclosed(c))))
+//@     invariant[C07] all(c, chan ServerMsg, !fresh(c) ==> (len(chanbuf(c)) >= old(len(chanbuf(c))) && g(dropped, c) >= old(g(dropped, c)) && forall(i, 0, old(len(chanbuf(c))), chanbuf(c)[i] == old(chanbuf(c))[i])))
+//@     invariant[C07] all(c, chan ServerMsg, !fresh(c) ==> forall(i, old(len(chanbuf(c))), len(chanbuf(c)), isDeliveryTo(subs, chanbuf(c)[i], c, event)))
+//@     invariant[C07] all(c, chan ServerMsg, !fresh(c) ==> len(chanbuf(c)) + g(dropped, c) >= lold(len(chanbuf(c)) + g(dropped, c)))
+//@     invariant[C07] all(sid, string, all(c, chan ServerMsg, (vs[sid] && has(m.m, sid) && matches(m.m[sid].Matcher, event) && refof(c) == refof(m.m[sid].Ch)) ==> len(chanbuf(c)) + g(dropped, c) > old(len(chanbuf(c)) + g(dropped, c))))
+
+//@ func newSafeMap
+//@   serves C07
+//@   opt inst.K=string
+//@   opt inst.V=*subscriber
+//@   writes nothing
+//@   ensures result != nil && fresh(result) && result.m != nil && fresh(result.m) && len(result.m) == 0 && held(result.mu) == 0
+
+//@ func newSubscribers
+//@   serves C07
+//@   writes nothing
+//@   ensures[C07] fresh(result) && registryWF(result) && len(result.subs.m) == 0
+
+//@ func NewRouterHandler
+//@   serves C07
+//@   panics buflen <= 0
+//@   writes nothing
+//@   ensures[C07] fresh(result) && result.buflen == buflen && buflen > 0 && registryWF(result.subs)
+
+//@ func subscribers.Subscribe
+//@   serves C07
+//@   requires registryWF(subs) && subOK(sub)
+//@   writes contents(subs.subs.m), eachkey(k, subs.subs.m, contents(subs.subs.m[k].m)), anylock(subs.subs.mu), anylock(subs.subs.m[""].mu)
+//@   ensures[C07] registered(subs, sub.ReqID, sub.SubscriptionID) && subAt(subs, sub.ReqID, sub.SubscriptionID) == sub
+//@   ensures[C07] all(r, string, all(sid, string, (r != sub.ReqID || sid != sub.SubscriptionID) ==> (registered(subs, r, sid) == old(registered(subs, r, sid)) && (registered(subs, r, sid) ==> subAt(subs, r, sid) == old(subAt(subs, r, sid))))))
+//@   ensures registryWF(subs)
+
+//@ func subscribers.Unsubscribe
+//@   serves C07
+//@   requires registryWF(subs)
+//@   writes eachkey(k, subs.subs.m, contents(subs.subs.m[k].m)), anylock(subs.subs.mu), anylock(subs.subs.m[""].mu)
+//@   ensures[C07] !registered(subs, reqID, subID)
+//@   ensures[C07] all(r, string, all(sid, string, (r != reqID || sid != subID) ==> (registered(subs, r, sid) == old(registered(subs, r, sid)) && (registered(subs, r, sid) ==> subAt(subs, r, sid) == old(subAt(subs, r, sid))))))
+//@   ensures registryWF(subs)
+
 //@ func RouterHandler.recv
 //@   serves C07
-//@   trusted placeholder until the router registry contracts (C07) are in place
-//@   requires router != nil && router.subs != nil && router.subs.subs != nil && router.subs.subs.m != nil && held(router.subs.subs.mu) == 0
-//@   writes contents(router.subs.subs.m), eachkey(k, router.subs.subs.m, contents(router.subs.subs.m[k].m)), anychan(ServerMsg)
-//@   ensures held(router.subs.subs.mu) == 0
+//@   requires router != nil && registryWF(router.subs) && wfClientMsg(msg) && !isnil(subCh)
+//@   requires typeis(msg, *ClientReqMsg) ==> as(msg, *ClientReqMsg).ReqFilters != nil
+//@   writes contents(router.subs.subs.m), eachkey(k, router.subs.subs.m, contents(router.subs.subs.m[k].m)), anychan(ServerMsg), anylock(router.subs.subs.mu), anylock(router.subs.subs.m[""].mu)
+//@   ensures registryWF(router.subs)
+//@   ensures[C07] typeis(msg, *ClientReqMsg) ==> (typeis(result, *ServerEOSEMsg) && as(result, *ServerEOSEMsg).SubscriptionID == as(msg, *ClientReqMsg).SubscriptionID && registered(router.subs, reqID, as(msg, *ClientReqMsg).SubscriptionID) && refof(subAt(router.subs, reqID, as(msg, *ClientReqMsg).SubscriptionID).Ch) == refof(subCh))
+//@   ensures[C07] typeis(msg, *ClientEventMsg) ==> (typeis(result, *ServerOKMsg) && as(result, *ServerOKMsg).EventID == as(msg, *ClientEventMsg).Event.ID && as(result, *ServerOKMsg).Accepted)
+//@   ensures[C07] typeis(msg, *ClientEventMsg) ==> all(r, string, all(sid, string, (registered(router.subs, r, sid) && matches(subAt(router.subs, r, sid).Matcher, as(msg, *ClientEventMsg).Event)) ==> len(chanbuf(subAt(router.subs, r, sid).Ch)) + g(dropped, subAt(router.subs, r, sid).Ch) > old(len(chanbuf(subAt(router.subs, r, sid).Ch)) + g(dropped, subAt(router.subs, r, sid).Ch))))
+//@   ensures[C07] typeis(msg, *ClientEventMsg) ==> all(c, chan ServerMsg, !fresh(c) ==> forall(i, old(len(chanbuf(c))), len(chanbuf(c)), isDeliveryTo(router.subs, chanbuf(c)[i], c, as(msg, *ClientEventMsg).Event)))
+//@   ensures[C07] typeis(msg, *ClientCloseMsg) ==> (isnil(result) && !registered(router.subs, reqID, as(msg, *ClientCloseMsg).SubscriptionID))
+//@   ensures[C07] typeis(msg, *ClientCountMsg) ==> typeis(result, *ServerCountMsg)
 
 // every exit of a router session removes the session's subscriptions and cancels the session context;
 // every blocking select of the session is cancellable
 //@ func RouterHandler.ServeNostr
-//@   serves C13
-//@   requires router != nil && router.buflen >= 0 && router.subs != nil && router.subs.subs != nil && router.subs.subs.m != nil && held(router.subs.subs.mu) == 0
+//@   serves C07 C13
+//@   requires router != nil && router.buflen >= 0 && registryWF(router.subs)
+//@   requires forall(i, 0, len(chanbuf(recv)), wfClientMsg(chanbuf(recv)[i]) && (typeis(chanbuf(recv)[i], *ClientReqMsg) ==> as(chanbuf(recv)[i], *ClientReqMsg).ReqFilters != nil))
 //@   assert @exit: calledcount(cancel) >= 1
 //@   assert @exit: !has(router.subs.subs.m, reqID)
+//@   loop 2
+//@     invariant registryWF(router.subs) && !isnil(subCh) && chanbuf(recv) == lold(chanbuf(recv)) && 0 <= chanhead(recv)
 
 // the forwarding loops of a merged session and of the relay's writer: every blocking select is cancellable
 //@ func mergeHandlerSession.handleRecv
